@@ -98,6 +98,11 @@ def _kinds(S):
     if S.get("ver") == 0:
         return "corrupted-bytes"
     ks = []
+    if isinstance(S.get("hd"), dict):
+        h = S["hd"]
+        ks.append("hd[%s%s%s/%s/%s/%s/%s/pad%s]" % (
+            "" if h.get("magic", [0])[0] == 105 and h.get("magic")[15] == 209 and h.get("magic")[1] == 157 and h.get("magic")[8] == 177 else "badmagic/",
+            "" if h.get("nul") else "nonul/", h.get("mal"), h.get("vtext"), h.get("ver"), h.get("var"), h.get("num"), h.get("pad")))
     for it in S.get("items", [])[:8]:
         k = it.get("k")
         ks.append(it.get("s") if k == "o" else (k + str(it["c"]) if "c" in it else k))
@@ -277,8 +282,10 @@ def run(ctx):
                           timeout=1500, coverage=True, metadir=_metadir(ctx, "buf"), env=_jenv(ctx))
         f_pin = ex.submit(core.run_tlc, "MC_TeehistTicks.tla", "MC_ticks_pinned.cfg", cwd=SPECDIR, workers=1,
                           timeout=600, metadir=_metadir(ctx, "pin"), env=_jenv(ctx))
-        f_e1 = ex.submit(_pipe, ctx, "MC_TeehistTicks.tla", "Exp_ticks_%s.cfg" % tier, exe, mis1, 1500)
-        f_e2 = ex.submit(_pipe, ctx, "MC_TeehistBuf.tla", "Exp_buf_%s.cfg" % tier, exe, mis2, 1500)
+        f_e1 = ex.submit(_pipe, ctx, "MC_TeehistTicks.tla", "Exp_ticks_%s.cfg" % tier, exe, mis1, 2700)
+        f_e2 = ex.submit(_pipe, ctx, "MC_TeehistBuf.tla", "Exp_buf_%s.cfg" % tier, exe, mis2, 2700)
+        mis4 = os.path.join(wd, "mis-hdr.ndjson")
+        f_e4 = ex.submit(_pipe, ctx, "MC_TeehistHdr.tla", "Exp_hdr_%s.cfg" % tier, exe, mis4, 2700)
         mis3 = os.path.join(wd, "mis-ticks2.ndjson")
         f_e3 = None if quick else ex.submit(_pipe, ctx, "MC_TeehistTicks.tla", "Exp_ticks_thorough2.cfg", exe, mis3, 1500)
         f_drv = ex.submit(core.run_harness, [exe, "drive", str(ctx.seed), tier, os.path.join(wd, "trace")],
@@ -317,6 +324,7 @@ def run(ctx):
         # ---- direction A
         exports = [("tick machine export (Exp_ticks_%s)" % tier, f_e1, mis1),
                    ("fragmentation schedules export (Exp_buf_%s)" % tier, f_e2, mis2)]
+        exports.append(("header grammar export (Exp_hdr_%s)" % tier, f_e4, mis4))
         if f_e3 is not None:
             exports.append(("tick machine export (Exp_ticks_thorough2)", f_e3, mis3))
         for label, fut, mis in exports:
